@@ -581,6 +581,129 @@ def main(out_path):
     L.append(f"Definition FILELOCK_DROP_UNLOCKS : bool := {'true' if drop_unlocks else 'false'}.")
     L.append("")
 
+    # --- the caveat level of an edge (search_for_path): translated arm by arm
+    sfp = fn_body(resolver, "search_for_path")
+    m = re.search(r"let\s+edge_caveat_level\s*=\s*match\s*&edge\.origin\s*\{", sfp)
+    if not m:
+        raise TranslateError("search_for_path: `let edge_caveat_level = match &edge.origin {` not found")
+    ob = m.end() - 1
+    body = sfp[ob + 1:match_brace(sfp, ob)]
+
+    def split_arms(b):
+        """top-level arms `pattern [if guard] => expr` of a match body"""
+        arms, depth, cur, i = [], 0, "", 0
+        while i < len(b):
+            ch = b[i]
+            if ch in "{([":
+                depth += 1
+            elif ch in "})]":
+                depth -= 1
+                if depth == 0 and ch == "}" and "=>" in cur:
+                    cur += ch
+                    # a block arm ends at its closing brace (an optional comma follows)
+                    j = i + 1
+                    while j < len(b) and b[j] in " \n\t":
+                        j += 1
+                    if j < len(b) and b[j] == ",":
+                        j += 1
+                    arms.append(cur.strip())
+                    cur = ""
+                    i = j
+                    continue
+            elif ch == "," and depth == 0:
+                if cur.strip():
+                    arms.append(cur.strip())
+                cur = ""
+                i += 1
+                continue
+            cur += ch
+            i += 1
+        if cur.strip():
+            arms.append(cur.strip())
+        out = []
+        for a in arms:
+            pat, _, expr = a.partition("=>")
+            pat, _, guard = pat.partition(" if ")
+            expr = expr.strip()
+            if expr.startswith("{") and expr.endswith("}") and not expr.startswith("match"):
+                expr = expr[1:-1].strip()
+            out.append((pat.strip(), guard.strip(), expr))
+        return out
+
+    def level(e):
+        mm = re.fullmatch(r"CaveatLevel::(\w+)", e.strip())
+        if mm:
+            return "CV_" + mm.group(1)
+        if e.strip() == "unreachable!()":
+            return "CV_FreshExemption"      # never a stored edge; the model's synthetic edge carries this level
+        raise TranslateError(f"edge_caveat_level: cannot translate result {e!r}")
+
+    def guard_cond(g):
+        g = g.strip()
+        if not g:
+            return None
+        if g == "!importable":
+            return "negb importable"
+        mm = re.fullmatch(r"mode\s*==\s*SearchMode::(\w+)", g)
+        if mm:
+            return f"smode_eqb m {mm.group(1)}"
+        if g == "!edge.freshness.is_fresh()":
+            return "negb (efresh_is_fresh f)"
+        if g == "edge.freshness.is_fresh()":
+            return "efresh_is_fresh f"
+        raise TranslateError(f"edge_caveat_level: cannot translate guard {g!r}")
+
+    def conj(cs):
+        cs = [c for c in cs if c]
+        return " && ".join(f"({c})" for c in cs) if cs else "true"
+
+    def tr_inner(expr):
+        mm = re.match(r"match\s+(mode|edge\.freshness)\s*\{", expr)
+        if not mm:
+            return level(expr)
+        ob2 = mm.end() - 1
+        arms2 = split_arms(expr[ob2 + 1:match_brace(expr, ob2)])
+        txt = None
+        for pat, guard, e in reversed(arms2):
+            if mm.group(1) == "mode":
+                pm = re.fullmatch(r"SearchMode::(\w+)", pat)
+                pc = f"smode_eqb m {pm.group(1)}" if pm else (None if pat == "_" else "?")
+            else:
+                pm = re.fullmatch(r"DeltaEdgeFreshness::(\w+)", pat)
+                pc = f"efresh_eqb f EF_{pm.group(1)}" if pm else (None if pat == "_" else "?")
+            if pc == "?":
+                raise TranslateError(f"edge_caveat_level: cannot translate pattern {pat!r}")
+            c = conj([pc, guard_cond(guard)])
+            txt = tr_inner(e) if (c == "true" and txt is None) else f"if {c} then {tr_inner(e)} else {txt if txt is not None else 'CV_None'}"
+        return txt
+
+    ORIGIN_KIND = {"StoredLocalAudit": "OK_LocalAudit", "ImportedAudit": "OK_Imported", "WildcardAudit": "OK_Wildcard",
+                   "Trusted": "OK_Trusted", "Exemption": "OK_Exemption", "Unpublished": "OK_Unpublished",
+                   "FreshExemption": "OK_FreshExemption"}
+    txt = None
+    for pat, guard, e in reversed(split_arms(body)):
+        pm = re.match(r"DeltaEdgeOrigin::(\w+)", pat)
+        if pm:
+            if pm.group(1) not in ORIGIN_KIND:
+                raise TranslateError(f"edge_caveat_level: unknown origin {pm.group(1)}")
+            pc = f"okind_eqb k {ORIGIN_KIND[pm.group(1)]}"
+        elif pat == "_":
+            pc = None
+        else:
+            raise TranslateError(f"edge_caveat_level: cannot translate pattern {pat!r}")
+        c = conj([pc, guard_cond(guard)])
+        txt = tr_inner(e) if (c == "true" and txt is None) else f"if {c} then {tr_inner(e)} else ({txt if txt is not None else 'CV_None'})"
+    L.append("(* the caveat level an edge adds (resolver.rs search_for_path), translated arm by arm, in arm order *)")
+    L.append("Inductive okind := OK_LocalAudit | OK_Imported | OK_Wildcard | OK_Trusted | OK_Exemption | OK_Unpublished | OK_FreshExemption.")
+    L.append("Inductive efresh := EF_Stale | EF_FreshPublisher | EF_Fresh.")
+    L.append("Definition okind_eqb (a b : okind) : bool := match a, b with OK_LocalAudit, OK_LocalAudit | OK_Imported, OK_Imported | OK_Wildcard, OK_Wildcard | OK_Trusted, OK_Trusted | OK_Exemption, OK_Exemption | OK_Unpublished, OK_Unpublished | OK_FreshExemption, OK_FreshExemption => true | _, _ => false end.")
+    L.append("Definition efresh_eqb (a b : efresh) : bool := match a, b with EF_Stale, EF_Stale | EF_FreshPublisher, EF_FreshPublisher | EF_Fresh, EF_Fresh => true | _, _ => false end.")
+    L.append("Definition efresh_is_fresh (f : efresh) : bool := match f with EF_Stale => false | _ => true end.")
+    L.append("Definition smode_eqb (a b : search_mode) : bool := match a, b with PreferExemptions, PreferExemptions | PreferFreshImports, PreferFreshImports | RegenerateExemptions, RegenerateExemptions => true | _, _ => false end.")
+    L.append("Definition edge_caveat_src (m : search_mode) (k : okind) (importable : bool) (f : efresh) : N :=")
+    L.append("  " + txt + ".")
+    L.append("")
+
     # --- [policy] table keys (serialization.rs mod policy)
     ser = strip_comments(read("src/serialization.rs"))
     polmod = item_body(ser, r"\bpub\s+mod\s+policy\s*\{", "serialization::policy")
